@@ -247,7 +247,8 @@ Section FifoBridge.
   Lemma g_find_iter_ok (s : fifol K V) l d : req (g_find_iter s l d) (do os <- fl_find_range s l; Ok (s, os)).
   Proof.
     unfold g_find_iter.
-    match goal with |- context [if ?c then Ok s else Ok s] => destruct c end; cbn [bind].
+    (* output.reserve(distance) has no observable effect, whether or not it is guarded by a test on the distance *)
+    repeat match goal with |- context [if ?c then ?x else ?x] => destruct c end; cbn [bind].
     all: match goal with |- req (bind (foldM ?F _ _) _) _ => pose proof (g_find_loop F) as G end;
       specialize (G (fun s acc k => eq_refl) l s []); revert G;
       destruct (foldM _ _ _) as [[s' n']|]; cbn [bind]; destruct (fl_find_range s l) as [os|]; simpl; auto.
